@@ -155,6 +155,16 @@ try:
 except Exception as ex:
     out["import"] = type(ex).__name__ + ": " + str(ex)[:300]
     out["trace"] = traceback.format_exc()[-1200:]
+# an application may import any of the generated packages first: forget them all and import them again in the opposite order
+names = sorted(n for n in sys.modules if n == "gen" or n.startswith("gen."))
+if out["import"] == "ok" and len(names) > 2:
+    for n in names:
+        del sys.modules[n]
+    try:
+        for n in reversed(names):
+            importlib.import_module(n)
+    except Exception as ex:
+        out["errors"].append([n, "", "importing the generated packages in another order (%s first) fails: %s: %s" % (names[-1], type(ex).__name__, str(ex)[:200])])
 json.dump(out, sys.stdout)
 '''
 
